@@ -106,17 +106,55 @@ def model_driver():
     return os.path.join(LEAN, ".lake", "build", "bin", "modeldriver")
 
 
-def run_lines(exe, lines, timeout=600, env=None):
-    """Feed request lines to a line-protocol executable, return response lines."""
+def run_lines(exe, lines, timeout=600, env=None, stall=None):
+    """Feed request lines to a line-protocol executable, return (response lines, return code, stderr).
+    With `stall` (seconds): the executable answers line by line (it flushes after every answer); when no new answer
+    arrives for that long it is killed and the return code is the string "hang" - the answers so far tell which
+    request it never answered."""
     data = "\n".join(lines) + "\n"
     e = dict(os.environ)
     e["TMPDIR"] = os.path.join(WORK, "tmp")
     os.makedirs(e["TMPDIR"], exist_ok=True)
     if env:
         e.update(env)
-    p = subprocess.run([exe], input=data, capture_output=True, text=True, timeout=timeout,
-                       start_new_session=True, env=e)
-    return p.stdout.split("\n")[:-1] if p.stdout.endswith("\n") else p.stdout.split("\n"), p.returncode, p.stderr
+    if stall is None:
+        p = subprocess.run([exe], input=data, capture_output=True, text=True, timeout=timeout,
+                           start_new_session=True, env=e)
+        return p.stdout.split("\n")[:-1] if p.stdout.endswith("\n") else p.stdout.split("\n"), p.returncode, p.stderr
+    import tempfile, signal
+    with tempfile.TemporaryDirectory(dir=e["TMPDIR"]) as td:
+        fin, fout, ferr = (os.path.join(td, n) for n in ("in", "out", "err"))
+        with open(fin, "w") as f:
+            f.write(data)
+        with open(fin) as i, open(fout, "w") as o, open(ferr, "w") as r:
+            p = subprocess.Popen([exe], stdin=i, stdout=o, stderr=r, start_new_session=True, env=e)
+            t0 = last = time.time()
+            size = 0
+            rc = None
+            while True:
+                try:
+                    rc = p.wait(timeout=0.2)
+                    break
+                except subprocess.TimeoutExpired:
+                    pass
+                now = time.time()
+                sz = os.path.getsize(fout)
+                if sz != size:
+                    size, last = sz, now
+                if now - last > stall or now - t0 > timeout:
+                    try:
+                        os.killpg(p.pid, signal.SIGKILL)
+                    except ProcessLookupError:
+                        pass
+                    p.wait()
+                    rc = "hang"
+                    break
+        out = open(fout, errors="replace").read()
+        err = open(ferr, errors="replace").read()
+    res = out.split("\n")
+    if rc == "hang" or out.endswith("\n") or out == "":
+        res = res[:-1]   # drop the empty tail (or the incomplete answer of a killed run)
+    return res, rc, err
 
 
 def hexb(b: bytes) -> str:
